@@ -381,4 +381,121 @@ theorem Rec.compact (c : Cfg) {s : Engine} (hR : Rec s) (hQ : Quiet s) (hB : Lab
     · exact Or.inl h1
     · exact Or.inr (Or.inr h1)
 
+/-! ### close: the log is replaced by one transaction -/
+
+theorem labels_roundtrip (q : Interner) : ∀ p : Interner, (p ++ q).Nodup →
+    ((q.zipIdx p.length).map (fun x => WalRec.createLabel x.1 x.2)).foldlM labelOp p = .ok (p ++ q) := by
+  induction q with
+  | nil => intro p _; simp only [List.zipIdx_nil, List.map_nil, List.foldlM_nil, List.append_nil]; rfl
+  | cons nm q ih =>
+    intro p hn
+    have hnm : nm ∉ p := by
+      intro hm
+      have := (List.nodup_append.mp hn).2.2 nm hm nm List.mem_cons_self
+      exact this rfl
+    rw [List.zipIdx_cons, List.map_cons, List.foldlM_cons]
+    have : labelOp p (WalRec.createLabel nm p.length) = .ok (p ++ [nm]) := by
+      simp only [labelOp, (getId_none_iff p nm).mpr hnm, Nat.sub_self, List.range_zero, List.map_nil, List.append_nil]
+    rw [this]
+    have := ih (p ++ [nm]) (by rw [List.append_assoc]; exact hn)
+    rw [List.length_append, List.length_singleton] at this
+    show (List.map (fun x => WalRec.createLabel x.1 x.2) (q.zipIdx (p.length + 1))).foldlM labelOp (p ++ [nm]) = _
+    rw [this, List.append_assoc]
+    rfl
+
+/-- the engine `open` sees after `checkpoint_on_close` rewrote the log (same files; `ckptTxid` is the
+    value the rewritten log carries) -/
+def closedView (s : Engine) : Engine := { s.checkpointOnClose with ckptTxid := s.nextTxid - 1 }
+
+theorem closedView_reopen (s : Engine) : (closedView s).reopen = s.checkpointOnClose.reopen := rfl
+
+theorem close_rec {s : Engine} (hR : Rec s) (hB : LabelsBase s.idmap) (hn : s.interner.Nodup)
+    (he : s.runs = []) : Rec (closedView s) ∧ Quiet (closedView s) := by
+  have hp := hR.txidPos
+  have hemp : (!s.runs.isEmpty) = false := by rw [he]; rfl
+  let labels := s.interner.zipIdx.map (fun p => WalRec.createLabel p.1 p.2)
+  let body : List WalRec := labels ++ [.manifestSwitch s.epoch (s.segs.map (·.id)) s.propsRoot,
+    .checkpoint (s.nextTxid - 1) s.epoch s.propsRoot]
+  have hwal : (closedView s).wal = WalRec.beginTx s.nextTxid :: (body ++ [WalRec.commitTx s.nextTxid]) := by
+    unfold closedView Engine.checkpointOnClose
+    rw [hemp]
+    simp only [Bool.false_eq_true, if_false, body, labels, List.append_assoc, List.cons_append, List.nil_append]
+  have hfields : (closedView s).idmap = s.idmap ∧ (closedView s).interner = s.interner ∧
+      (closedView s).runs = s.runs ∧ (closedView s).epoch = s.epoch ∧ (closedView s).segs = s.segs ∧
+      (closedView s).propsRoot = s.propsRoot ∧ (closedView s).ckptTxid = s.nextTxid - 1 ∧
+      (closedView s).nextTxid = s.nextTxid + 1 := by
+    unfold closedView Engine.checkpointOnClose
+    rw [hemp]
+    exact ⟨rfl, rfl, rfl, rfl, rfl, rfl, rfl, rfl⟩
+  obtain ⟨f1, f2, f3, f4, f5, f6, f7, f8⟩ := hfields
+  have hbody : ∀ r ∈ body, r.isBody = true := by
+    intro r hr
+    simp only [body, labels, List.mem_append, List.mem_map, List.mem_cons, List.mem_nil_iff, or_false] at hr
+    rcases hr with ⟨_, _, rfl⟩ | rfl | rfl <;> rfl
+  have hinert : ∀ r ∈ body, r.isInert = true := by
+    intro r hr
+    simp only [body, labels, List.mem_append, List.mem_map, List.mem_cons, List.mem_nil_iff, or_false] at hr
+    rcases hr with ⟨_, _, rfl⟩ | rfl | rfl <;> rfl
+  have hblocks : Blocks (closedView s).wal [(s.nextTxid, body)] := by
+    rw [hwal]
+    have := Blocks.nil.append s.nextTxid body hbody
+    simpa using this
+  have hmax : (scanRecovery [(s.nextTxid, body)]).maxTxid = s.nextTxid := by
+    have := scan_maxTxid_append [] (s.nextTxid, body)
+    simp only [List.nil_append] at this
+    rw [this]
+    show max 0 s.nextTxid = s.nextTxid
+    exact Nat.zero_max _
+  have hidle : IdleTx s.idmap (s.nextTxid, body) := idle_of_inert _ _ hinert
+  constructor
+  · refine ⟨⟨[(s.nextTxid, body)], hblocks, ?_, ?_, ?_, ?_, ?_, ?_⟩, ?_, ?_⟩
+    · rw [f2, replayLabels_eq, List.foldlM_cons]
+      have h1 := labels_roundtrip s.interner [] (by simpa using hn)
+      simp only [List.length_nil, List.nil_append] at h1
+      have hbodyL : body.foldlM labelOp [] = .ok s.interner := by
+        show (labels ++ _).foldlM labelOp [] = _
+        rw [List.foldlM_append]
+        show (labels.foldlM labelOp [] >>= _) = _
+        rw [show labels.foldlM labelOp [] = .ok s.interner from h1]
+        rfl
+      show (labelTx [] (s.nextTxid, body) >>= fun init => List.foldlM labelTx init []) = _
+      unfold labelTx
+      simp only
+      rw [hbodyL]
+      rfl
+    · rw [f4, f5, f6, f7]
+      unfold ScanIs
+      rw [scanRecovery_eq, List.foldl_cons, List.foldl_nil]
+      unfold scanTx
+      show (_ : Recovery).epoch = _ ∧ _
+      rw [List.foldl_append]
+      have hnm : ∀ r ∈ labels, r.isMeta = false := by
+        intro r hr
+        simp only [labels, List.mem_map] at hr
+        obtain ⟨_, _, rfl⟩ := hr; rfl
+      obtain ⟨m1, m2, m3, m4⟩ := scanOps_noMeta labels { ({} : Recovery) with maxTxid := max ({} : Recovery).maxTxid s.nextTxid } hnm
+      generalize labels.foldl scanOp { ({} : Recovery) with maxTxid := max ({} : Recovery).maxTxid s.nextTxid } = st0 at m1 m2 m3 m4
+      have e0 : st0.epoch = 0 := m1
+      simp only [List.foldl_cons, List.foldl_nil, scanOp, e0, ge_iff_le, Nat.zero_le, if_true, beq_self_eq_true,
+        Nat.zero_max, and_self]
+    · intro m0 T hc hi
+      rw [f1, f3, f7] at *
+      refine ⟨[], ?_, by rw [he]; exact RunsEq.nil⟩
+      have : ({ m0 with i2l := s.idmap.i2l ++ T } : IdMap) = m0 := by
+        cases m0; simp only at hi ⊢; rw [hi, hB]
+      rw [this, replayGraph_eq]
+      exact replay_all_idle s.idmap _ _ (by
+        intro tx htx; simp only [List.mem_singleton] at htx; subst htx; exact Or.inr hidle) m0 [] hc
+    · rw [f7, hmax]; omega
+    · rw [f3, he]; intro r hr; cases hr
+    · rw [f8, hmax]; omega
+    · rw [f8]; omega
+    · rw [f3, he]; intro r hr; cases hr
+  · refine ⟨⟨[(s.nextTxid, body)], hblocks, ?_⟩⟩
+    intro tx htx
+    simp only [List.mem_singleton] at htx
+    subst htx
+    rw [f1]
+    exact Or.inr (Or.inr hidle)
+
 end Nervus.Storage
